@@ -782,7 +782,14 @@ impl<T: Config> P2PSession<T> {
                 if self.sync_layer.current_frame() > last_frame + 1 {
                     // remember to adjust simulation to account for the fact that the player disconnected a few frames ago,
                     // resimulating with correct disconnect flags (to account for user having some AI kick in).
-                    self.disconnect_frame = last_frame + 1;
+                    // Several players can be dropped before the next rollback (e.g. two endpoints timing
+                    // out in the same poll): keep the earliest of the pending cut-offs, whatever the
+                    // order in which the drops are processed.
+                    self.disconnect_frame = if self.disconnect_frame == NULL_FRAME {
+                        last_frame + 1
+                    } else {
+                        std::cmp::min(self.disconnect_frame, last_frame + 1)
+                    };
                 }
             }
             PlayerType::Spectator(addr) => {
